@@ -40,6 +40,13 @@ WRITTEN = ['seven thirty pm', 'three twenty', 'eleven fifty five am', 'twelve oh
            'twenty four', 'half past seven', 'a quarter to eleven pm', 'eight thirty in the evening', '5ish', 'noonish']
 
 
+def load_contract():
+    import json
+    import os
+    with open(os.path.join(common.VERIF, 'contracts', 'C07.json'), encoding='utf-8') as f:
+        return json.load(f)
+
+
 def ref_dt(t):
     return datetime.datetime(*t)
 
@@ -181,42 +188,88 @@ def unit_format(ctx, T):
     ctx.sample({'op': lines[1000], 'implementation': impl[1000]})
 
 
+def culture_time_strings(ctx, T, culture, contract):
+    """Strings for a culture's time regexes: every Python-supported Specs text of the culture's Time extractor / parser
+    suites, the same texts with their first number replaced by every hour 0..24, and the contract's clock forms with
+    every designator."""
+    import re
+    from lib import specs
+    if culture == 'en-us':
+        out = time_strings(ctx)
+    else:
+        out = []
+    lang = {v: k for k, v in specs.CULTURES.items()}.get(culture)
+    texts = []
+    for c in specs.iter_cases():
+        if c['recognizer'] == 'DateTime' and c['language'] == lang and c['model'] in ('Time', 'DateTime', 'TimePeriod') and c['supported']:
+            for r_ in (c['results'] or []):
+                if r_.get('Text'):
+                    texts.append(r_['Text'].lower())
+    texts = sorted(set(texts))
+    out += texts
+    for t in texts:
+        m = re.search(r'\d+', t)
+        if m and len(t) < 40:
+            for h in range(0, 25):
+                out.append(t[:m.start()] + str(h) + t[m.end():])
+    h12 = contract['h12'].get(culture, {})
+    for clock in h12.get('clock', []):
+        for h in range(0, 14):
+            core = clock.replace('{h}', str(h)).replace('{MM}', '30').replace('{SS}', '15')
+            out.append(core)
+            for d, _ in h12.get('am', []) + h12.get('pm', []):
+                out.append(core + d)
+    for tpl, _ in contract['h24'].get(culture, []):
+        for h in (0, 1, 9, 12, 13, 23, 24):
+            out.append(tpl.replace('{HH}', '%02d' % h).replace('{H}', str(h)).replace('{MM}', '05').replace('{SS}', '59'))
+    seen, uniq = set(), []
+    for x in out:
+        if x not in seen:
+            seen.add(x)
+            uniq.append(x)
+    return uniq
+
+
 def unit_match_to_time(ctx, T, variant):
-    tp = T.time_parser()
-    cfg = tp.config
-    patterns = [('AtRegex', cfg.at_regex)] + [('TimeRegex#%d' % i, p) for i, p in enumerate(cfg.time_regexes)]
+    contract = load_contract()
     refs = [ref_dt(REFS[1]), ref_dt(REFS[2])]
     lines, impl, meta = [], [], []
-    seen = set()
-    for s in time_strings(ctx):
-        low = s.lower()
-        for name, pat in patterns:
-            m = T.regex.search(pat, low)
-            if m is None or not m.group():
-                continue
-            fields, groups = T.time_call_fields(m)
-            key = tuple(fields)
-            if key in seen:
-                continue
-            seen.add(key)
-            ref = refs[len(seen) % 2]
-            try:
-                a = dtres.res_str(tp.match_to_time(m, ref))
-            except Exception as e:
-                a = dtres.err_kind(e)
-            lines.append('\t'.join(['dt.m2t', dtres.dt_field(ref), variant] + fields))
-            impl.append(a)
-            meta.append((s, name, m.group(), groups, ref))
+    for culture, spec in dtres.TIME_SPEC.items():
+        tp = T.time_parser(culture)
+        cfg = tp.config
+        else_pm = T.suffix_else_variant(culture)
+        patterns = [('AtRegex', cfg.at_regex)] + [('TimeRegex#%d' % i, p) for i, p in enumerate(cfg.time_regexes)]
+        seen = set()
+        for s in culture_time_strings(ctx, T, culture, contract):
+            low = s.lower()
+            for name, pat in patterns:
+                m = T.regex.search(pat, low)
+                if m is None or not m.group():
+                    continue
+                fields, groups = T.time_call_fields(m, culture)
+                key = tuple(fields)
+                if key in seen:
+                    continue
+                seen.add(key)
+                ref = refs[len(seen) % 2]
+                try:
+                    a = dtres.res_str(tp.match_to_time(m, ref))
+                except Exception as e:
+                    a = dtres.err_kind(e)
+                lines.append('\t'.join(['dt.m2t', dtres.dt_field(ref), spec['tag'], variant, else_pm] + fields))
+                impl.append(a)
+                meta.append((culture, name, m.group(), groups, ref))
     model = common.driver(lines)
     ctx.count('match_to_time', len(lines))
-    hist = {}
+    hist, per = {}, {}
     pending = []
-    for (s, name, text, groups, ref), l, a, mo in zip(meta, lines, impl, model):
+    for (culture, name, text, groups, ref), l, a, mo in zip(meta, lines, impl, model):
         kind = 'error' if a.startswith('err') else ('unresolved' if a.startswith('0|') else 'resolved')
         hist[kind] = hist.get(kind, 0) + 1
+        per[culture] = per.get(culture, 0) + 1
         if kind == 'resolved':
-            ctx.nontriv(('m2t', tuple(sorted(groups.items()))))
-        exp = clock_expectation(groups)
+            ctx.nontriv(('m2t', culture, tuple(sorted(groups.items()))))
+        exp = clock_expectation(groups) if culture == 'en-us' else None
         bad = None
         if exp is not None:
             timex, ambiguous, (hh, mm, ss) = exp
@@ -225,16 +278,19 @@ def unit_match_to_time(ctx, T, variant):
                                       dtres.dt_field(ref.replace(hour=hh, minute=mm, second=ss)))
             if a != want:
                 bad = 'groups %r: match_to_time gives %s, the property demands %s' % (groups, a, want)
-        fi = {'op': 'BaseTimeParser.match_to_time', 'matched_text': text, 'regex': name, 'groups': groups,
+        fi = {'op': 'BaseTimeParser.match_to_time', 'culture': culture, 'matched_text': text, 'regex': name, 'groups': groups,
               'reference': str(ref), 'implementation': a, 'model': mo, 'property': bad}
         if a != mo:
-            dtres.report(ctx, 'correspondence', 'match_to_time', 'match_to_time on %r (%s) groups %r: implementation %s, model %s' % (
-                text, name, groups, a, mo), failing_input=fi, property_fails=bad is not None)
+            dtres.report(ctx, 'correspondence', 'match_to_time-' + culture,
+                         'match_to_time[%s] on %r (%s) groups %r: implementation %s, model %s' % (culture, text, name, groups, a, mo),
+                         failing_input=fi, property_fails=bad is not None)
         elif bad:
             zero = groups.get('hour', '').strip('0') == '' and a.startswith('0|')
             pending.append(('hour0-unresolved' if zero else 'match_to_time-property', bad, fi))
     emit(ctx, pending)
     ctx.extra['match_to_time_outcomes'] = hist
+    ctx.extra['match_to_time_calls_per_culture'] = per
+    ctx.extra['suffix_else_variant'] = {c: T.suffix_else_variant(c) for c in dtres.TIME_SPEC}
     ctx.sample({'op': lines[len(lines) // 3], 'implementation': impl[len(lines) // 3]})
 
 
@@ -446,7 +502,10 @@ def pipeline(ctx, variant):
     r = ctx.rng('pipeline')
     cases = []   # (family, query, ref, expr, want_type, expected list of (timex, value))
 
-    def add(family, expr, ref, want_type, expected, carrier='%s'):
+    culture_of = {}
+
+    def add(family, expr, ref, want_type, expected, carrier='%s', culture='en-us'):
+        culture_of[len(cases)] = culture
         cases.append((family, carrier % expr, ref, expr, want_type, expected))
 
     def expect_time(h, m, s, has_m, has_s, ambiguous):
@@ -512,11 +571,57 @@ def pipeline(ctx, variant):
                 tstr = '%02d:%02d' % (h, m) + (':%02d' % s if s is not None else '')
                 add('date-at-time' + ('-relative' if rel else ''), de + ' at ' + tstr, ref, 'datetime', exp,
                     'we land %s' if (h + m) % 2 else '%s')
+    # the contract's spellings of every culture (contracts/C07.json)
+    contract = load_contract()
+
+    def fill(tpl, h, m, s):
+        return (tpl.replace('{HH}', '%02d' % h).replace('{H}', str(h)).replace('{h}', str(h))
+                .replace('{MM}', '%02d' % m).replace('{SS}', '%02d' % s))
+
+    k = 0
+    for culture, tpls in contract['h24'].items():
+        hs = range(24) if (ctx.thorough or culture == 'en-us') else (0, 1, 9, 11, 12, 13, 19, 23)
+        for tpl, _ev in tpls:
+            for h in hs:
+                for m, sec in (((0, 0), (30, 59), (59, 1)) if ctx.thorough else ((5 * (h % 12), 59 - h),)):
+                    k += 1
+                    add('h24:' + culture, fill(tpl, h, m, sec), REFS[k % len(REFS)], 'time',
+                        expect_time(h, m, sec if '{SS}' in tpl else 0, '{MM}' in tpl, '{SS}' in tpl, 1 <= h <= 12), '%s', culture)
+    for culture, spec in contract['h12'].items():
+        for clock in spec['clock']:
+            for h in range(1, 13):
+                for which in ('am', 'pm'):
+                    for d, _ev in spec[which]:
+                        k += 1
+                        m, sec = (7 * h + k) % 60, (11 * h + k) % 60
+                        hh = (0 if h == 12 else h) + (12 if which == 'pm' else 0)
+                        add('h12-%s:%s' % (which, culture), fill(clock, h, m, sec) + d, REFS[k % len(REFS)], 'time',
+                            expect_time(hh, m if '{MM}' in clock else 0, sec if '{SS}' in clock else 0, '{MM}' in clock,
+                                        '{SS}' in clock, False), '%s', culture)
+    zh = contract['zh-cn']
+    for tpl, _ev in zh['h24']:
+        for h in (range(24) if ctx.thorough else (0, 1, 9, 11, 12, 13, 19, 23)):
+            k += 1
+            m = (7 * h) % 60
+            add('h24:zh-cn', fill(tpl, h, m, 0), REFS[k % len(REFS)], 'time',
+                expect_time(h, m, 0, True, False, 1 <= h <= 12), '%s', 'zh-cn')
+    for clock in zh['h12']['clock']:
+        for h in range(1, 13):
+            for which, key in (('am', 'am_prefix'), ('pm', 'pm_prefix')):
+                if which == 'am' and h not in zh['h12'].get('am_hours', range(1, 13)):
+                    continue
+                for d, _ev in zh['h12'][key]:
+                    k += 1
+                    m = (5 * h) % 60
+                    hh = (0 if h == 12 else h) + (12 if which == 'pm' else 0)
+                    add('h12-%s:zh-cn' % which, d + fill(clock, h, m, 0), REFS[k % len(REFS)], 'time',
+                        expect_time(hh, m if '{MM}' in clock else 0, 0, '{MM}' in clock, False, False), '%s', 'zh-cn')
     ctx.extra['pipeline_cases'] = len(cases)
-    results = dtres.run_queries([(('en-us'), q, ref) for _, q, ref, _, _, _ in cases])
+    results = dtres.run_queries([(culture_of[i], c[1], c[2]) for i, c in enumerate(cases)])
     fam = {}
     pending = []
-    for (family, q, ref, expr, want_type, expected), res in zip(cases, results):
+    for idx, ((family, q, ref, expr, want_type, expected), res) in enumerate(zip(cases, results)):
+        culture = culture_of[idx]
         fam[family] = fam.get(family, 0) + 1
         ent, bad = one_entity(res, q, want_type)
         got = None
@@ -536,9 +641,17 @@ def pipeline(ctx, variant):
             ctx.nontriv(('pipe', q))
             continue
         hour0 = expected[0][0].split('T')[1].startswith('00') and ('no resolution' in bad)
-        sig = 'hour0-unresolved' if hour0 else 'clock-%s' % family
-        pending.append((sig, 'parse(%r, ref %s): %s' % (q, ref, bad),
-                        {'op': 'recognize_datetime', 'culture': 'en-us', 'query': q, 'reference': list(ref),
+        # finding afternoon-12: `12 <plain pm designator>` comes back with both readings (12:00 and 00:00)
+        noon12 = (family.startswith('h12-pm') and expected[0][0].startswith('T12') and got is not None and len(got) == 2
+                  and got[0] == expected[0] and got[1][0].startswith('T00'))
+        # finding zh-ampm-any-hour: ChineseTimeParser comments every description-less time `ampm`, so hour 0 and hours
+        # 13..23 get a second reading twelve hours later (`T25:31`)
+        zh_ampm = (culture == 'zh-cn' and family.startswith('h24') and got is not None and len(expected) == 1
+                   and len(got) == 2 and got[0] == expected[0])
+        sig = ('hour0-unresolved' if hour0 else 'afternoon-12' if noon12 else 'zh-ampm-any-hour' if zh_ampm
+               else 'clock-%s' % family)
+        pending.append((sig, 'parse[%s](%r, ref %s): %s' % (culture, q, ref, bad),
+                        {'op': 'recognize_datetime', 'culture': culture, 'query': q, 'reference': list(ref),
                          'expected_values': expected, 'observed': bad}))
     emit(ctx, pending)
     for k, v in fam.items():
